@@ -131,30 +131,68 @@ def run(ctx):
                'unmet required stop condition raises',
                'reaching the end of the stream without the required stop condition no longer raises',
                construct='LatexGeneralNodesParser.parse: required stop condition')
-    # met only if the token condition was met when one is set
-    sets = [s for s in iter_own(gp) if isinstance(s, ast.Assign)
-            and unparse(s.targets[0]) == 'met_a_required_stop_condition'
-            and isinstance(s.value, ast.Constant) and s.value.value is True]
-    good = 0
-    for s in sets:
-        facts = [(unparse(t), pol) for t, pol in atomic_facts(s)]
-        if ('self.require_stop_condition_met', False) in facts:
-            good += 1
-        elif ('stop_token_condition_met', True) in facts and ('self.stop_token_condition is not None', True) in facts:
-            good += 1
-        elif ('stop_nodelist_condition_met', True) in facts:
-            good += 1
-        elif ('self.stop_token_condition is not None', False) in facts and \
-                ('self.stop_nodelist_condition is not None', False) in facts:
-            good += 1
-        else:
-            ctx.refuted('R05e', gm, s, 'the required stop condition is considered met on the facts %s'
-                        % [t for t, p in facts if p][-3:], construct='met_a_required_stop_condition = True: '
-                        + str([t for t, p in facts][-2:]))
-    ctx.decide('R05e', good == len(sets) and good >= 3, gm, gp,
-               'stop condition counts as met only when the configured condition fired',
-               'the bookkeeping of met_a_required_stop_condition changed shape',
-               construct='LatexGeneralNodesParser.parse: met_a_required_stop_condition')
+    # met only if the configured condition fired: the value of the flag where it is tested, per
+    # structural path with substituted values (E7)
+    from .. import symex
+    FLAG = 'met_a_required_stop_condition'
+    try:
+        uses = symex.Walker(is_sink=lambda n: n.id == FLAG and isinstance(n.ctx, ast.Load) and any(
+            isinstance(p_, ast.If) and any(n is x for x in ast.walk(p_.test)) for p_ in parents(n)),
+            sink_types=(ast.Name,)).run(gp)
+    except symex.TooManyPaths as e:
+        uses = None
+        ctx.unknown('R05e', gm, gp, str(e), construct='LatexGeneralNodesParser.parse: ' + FLAG)
+    if uses is not None:
+        why = None
+        n_ok = 0
+        for cs in uses:
+            defs = cs.env.get('#def', {})
+            tokm = [k for k, d in defs.items() if isinstance(d, ast.Call) and call_name(d) == 'stop_token_condition_met']
+            nlm = [k for k, d in defs.items() if isinstance(d, ast.Call) and call_name(d) == 'stop_nodelist_condition_met']
+            facts = dict(symex.facts_of(cs.conds))
+            req = facts.get('self.require_stop_condition_met')
+            tok_none = facts.get('self.stop_token_condition is None')
+            nl_none = facts.get('self.stop_nodelist_condition is None')
+            tok_met = facts.get(tokm[0]) if tokm else None
+            nl_met = facts.get(nlm[0]) if nlm else None
+            v = cs.sub
+            if isinstance(v, ast.Call) and call_name(v) == 'bool' and len(v.args) == 1:
+                v = v.args[0]
+            # what the flag must be on this path (None = not determined by the path facts)
+            if req is False:
+                want = True
+            elif tok_none is False:
+                want = ('sym', tokm[0]) if tok_met is None and tokm else tok_met
+            elif tok_none is True and nl_none is False:
+                want = ('sym', nlm[0]) if nl_met is None and nlm else nl_met
+            elif tok_none is True and nl_none is True:
+                want = True
+            else:
+                want = None
+            if isinstance(v, ast.Constant):
+                got = bool(v.value)
+            elif isinstance(v, ast.Name):
+                got = ('sym', v.id)
+            else:
+                got = None
+            if want is None or got is None:
+                why = why or ('not decidable on the path [%s]: flag is %s' % (' & '.join(cs.cond_src())[-120:], short(cs.sub)))
+                continue
+            if got != want:
+                ctx.refuted('R05e', gm, cs.node, 'on the path [%s] the required stop condition counts as %s, but the '
+                            'configured condition says %s: input that ends without its closing token is '
+                            'accepted (or well-formed input rejected)' % (
+                                ' & '.join(cs.cond_src())[-140:], short(cs.sub), want),
+                            construct='%s on [%s]' % (FLAG, ' & '.join(cs.cond_src())[-60:]))
+                why = 'refuted'
+            else:
+                n_ok += 1
+        if why is None:
+            ctx.holds('R05e', gm, gp, 'stop condition counts as met only when the configured condition fired '
+                                      '(%d structural paths)' % n_ok,
+                      construct='LatexGeneralNodesParser.parse: ' + FLAG)
+        elif why != 'refuted':
+            ctx.unknown('R05e', gm, gp, why, construct='LatexGeneralNodesParser.parse: ' + FLAG)
     ctx.assume('that every faulty document reaches one of the rejecting raises is not decided; '
                'implicit exceptions are covered only through the crash-construct rules G1-G9')
     ctx.assume('call resolution: class-hierarchy analysis for self/super, name-keyed fallback for other '
